@@ -59,6 +59,8 @@ class FuseInterp:
             raise AnalysisError(f"{fi.qualname}: fuse must take (charges, signatures, new_signature)")
         self.p_ch, self.p_sig, self.p_new = params
         self.env = {}
+        self.temps = {}      # name -> (column expression, {matrix name: version at definition})
+        self.version = {}
 
     def err(self, node, why):
         raise AnalysisError(f"cannot normalise {self.fi.qualname} at {self.fi.where(node)}: {why}: {A.short(node)}")
@@ -160,16 +162,29 @@ class FuseInterp:
             if isinstance(st, ast.Assign) and len(st.targets) == 1:
                 t = st.targets[0]
                 if isinstance(t, ast.Name):
+                    # a temporary holding (a function of) one column: kept as an expression, valid while its matrix is not stored into
+                    cols = [self.col_index(x) for x in ast.walk(st.value) if isinstance(x, ast.Subscript)]
+                    cols = [c for c in cols if c is not None and c[0] in self.env]
+                    if cols and not (isinstance(st.value, ast.Name)):
+                        self.temps[t.id] = (st.value, {c[0]: self.version.get(c[0], 0) for c in cols})
+                        continue
                     self.env[t.id] = self.ev(st.value)
+                    self.version[t.id] = self.version.get(t.id, 0) + 1
                     continue
                 if isinstance(t, ast.Subscript):
                     ci = self.col_index(t)
                     if ci is None or ci[0] not in self.env:
                         self.err(st, "store is not x[:, j] = ... on the charge matrix")
                     name, j = ci
+                    rhs = st.value
+                    if isinstance(rhs, ast.Name) and rhs.id in self.temps:
+                        rhs, vers = self.temps[rhs.id]
+                        if any(self.version.get(b, 0) != v for b, v in vers.items()):
+                            self.err(st, "temporary column value used after its matrix was modified")
                     # right-hand side must be mod(x[:, j], k) on the same column
-                    k = self.col_mod_rhs(st.value, name, j)
+                    k = self.col_mod_rhs(rhs, name, j)
                     self.env[name] = self.reduce(self.env[name], j, k, st)
+                    self.version[name] = self.version.get(name, 0) + 1
                     continue
             if isinstance(st, ast.AugAssign) and isinstance(st.op, ast.Mod):
                 t = st.target
@@ -650,6 +665,32 @@ def check_leg(chk):
             else:
                 guards.setdefault("D-positive-int", []).append((n0, True, "evaluated on witness tuples: rejects non-positive and non-integer entries"))
             unknown = [(n, d) for n, d in unknown if (n, d) not in cand]
+    if unknown and "t-int" not in guards:
+        # same for the integrality guard on the charges: evaluated on witness tuples of flattened charges
+        from ..core.minieval import evaluate as _ev, CannotEvaluate as _CE
+        tname = None
+        for nm in ("t", "self.t"):
+            if any(nm in {A.text(x) for x in ast.walk(n.test)} for n, _d in unknown):
+                tname = nm
+        cand = [(n, d) for n, d in unknown if tname and tname in {A.text(x) for x in ast.walk(n.test)}
+                and not ({"D", "self.D", "lD", "nsym"} & {A.text(x) for x in ast.walk(n.test)})]
+        if cand:
+            invalid = [(0.5,), (1, 2.5), (-1.5, 0)]
+            valid = [(0,), (-2, 3), (1, 0, -1)]
+            try:
+                def rejects_t(tv):
+                    return any(bool(_ev(n.test, {tname: tv, "t": tv})) for n, _d in cand)
+                missed = [w for w in invalid if not rejects_t(w)]
+                wrongly = [w for w in valid if rejects_t(w)]
+            except _CE as e:
+                raise AnalysisError(f"Leg.__post_init__: guard on t `{A.short(cand[0][0].test)}` cannot be evaluated ({e}) — cannot decide G5")
+            n0 = cand[0][0]
+            if missed or wrongly:
+                guards.setdefault("t-int", []).append((n0, False, f"evaluated on witness tuples: accepts the non-integer charges {missed}"
+                                                      + (f", rejects the valid {wrongly}" if wrongly else "")))
+            else:
+                guards.setdefault("t-int", []).append((n0, True, "evaluated on witness tuples: rejects non-integer charges, accepts integers of either sign"))
+            unknown = [(n, d) for n, d in unknown if (n, d) not in cand]
     if unknown:
         missing = [r for r in required if r not in guards]
         if missing:
@@ -688,15 +729,45 @@ def check_leg(chk):
     vt = inl.expand(stores["t"][-1].args[2])
     vd = inl.expand(stores["D"][-1].args[2])
     tt, td = A.text(vt), A.text(vd)
-    m_t = re.fullmatch(r"tuple\(dict\(sorted\(zip\((.+)\)\)\)\.keys\(\)\)", tt) or \
-        re.fullmatch(r"tuple\(\((\w+)\[0\] for \1 in sorted\(zip\((.+)\)\)\)\)", tt)
-    m_d = re.fullmatch(r"tuple\(dict\(sorted\(zip\((.+)\)\)\)\.values\(\)\)", td)
+    # the two stored values select the first / second components of ONE sorted list of (charge, dimension) pairs: decided by
+    # evaluating the store expressions with that list replaced by a witness (any spelling: dict(..).keys(), `for tn, _ in ..`, x[0] ..)
+    from ..core.minieval import evaluate, CannotEvaluate
+
+    def sorted_pairs(v):
+        return [c for c in ast.walk(v) if isinstance(c, ast.Call) and A.call_name(c) == "sorted" and c.args
+                and isinstance(c.args[0], ast.Call) and A.call_name(c.args[0]) == "zip" and len(c.args[0].args) == 2 and not c.keywords]
+    sp_t, sp_d = sorted_pairs(vt), sorted_pairs(vd)
     if "sorted(" not in tt or "sorted(" not in td:
         chk.bad("G5", (pi, stores["t"][-1]), stores["t"][-1], "charges/dimensions are stored without sorting "
                 f"(t <- {A.short(vt)})")
-    elif m_t and m_d and m_t.group(1) == m_d.group(1):
-        chk.ok("G5", (pi, stores["t"][-1]), "t, D <- dict(sorted(zip(newt, D)))",
-               {"t": tt[:120], "D": td[:120], "same_permutation": True})
+    elif len(sp_t) == 1 and len(sp_d) == 1:
+        witness = [((0, 1), 5), ((0, 2), 6), ((3, 0), 7)]
+
+        def select(v, call):
+            class Rp(ast.NodeTransformer):
+                def visit_Call(self, c):
+                    if c is call:
+                        return ast.Name(id="__S__", ctx=ast.Load())
+                    return self.generic_visit(c)
+            import copy as _copy
+            v2 = _copy.deepcopy(v)
+            call2 = sorted_pairs(v2)[0]
+            call = call2
+            return evaluate(Rp().visit(v2), {"__S__": list(witness)})
+        try:
+            got_t, got_d = select(vt, sp_t[0]), select(vd, sp_d[0])
+        except CannotEvaluate as e:
+            raise AnalysisError(f"Leg.__post_init__: cannot evaluate sorted storage ({e}): t <- {tt} ; D <- {td}")
+        same = A.text(sp_t[0]) == A.text(sp_d[0])
+        ok_t = tuple(got_t) == tuple(w[0] for w in witness)
+        ok_d = tuple(got_d) == tuple(w[1] for w in witness)
+        if same and ok_t and ok_d:
+            chk.ok("G5", (pi, stores["t"][-1]), "t, D <- components of one sorted(zip(charges, dimensions))",
+                   {"t": tt[:120], "D": td[:120], "same_permutation": True})
+        else:
+            chk.bad("G5", (pi, stores["t"][-1]), stores["t"][-1], "Leg.__post_init__: t and D are not stored as the first / second components of one and the same "
+                    f"sorted list of (charge, dimension) pairs (t <- {A.short(vt, 80)} ; D <- {A.short(vd, 80)}): the dimensions no longer belong to "
+                    f"their charges, or the order is not the sorted one", {"same_sorted_list": same, "t_selects_charges": ok_t, "D_selects_dimensions": ok_d})
     else:
         raise AnalysisError(f"Leg.__post_init__: cannot normalise sorted storage: t <- {tt} ; D <- {td}")
 
